@@ -1270,6 +1270,13 @@ def main():
                     r = {'built': False, 'timeout': True}
                 r['mod'] = mspec
                 ans.append(r)
+        elif cmd == 'pressure_modules':
+            ans = []
+            for mspec in pressure_modules(req['seed'], req['n']):
+                r = run_module(mspec)
+                r['mod'] = {'pressure': mspec['pressure'], 'proofs': mspec['proofs'], 'axs_head': mspec['axs'][:3],
+                            'regenerate': {'cmd': 'pressure_modules', 'seed': req['seed'], 'n': req['n']}}
+                ans.append(r)
         elif cmd == 'pipeline':
             ans = []
             mods = pressure_modules(req['seed'], req['n']) if 'seed' in req else [req['mod']]
